@@ -41,7 +41,14 @@ pub enum Junk {
     FragContUnknown { frag_id: u8 },
     NotAControlTuple,
     EmptyTupleControl,
+    /// one of a table of one- to three-byte frames (`131`, `112`, `131 68`, `131 69`, ...)
+    Tiny(u8),
+    /// header mode only: a frame with a conforming distribution header that introduces new atom cache entries, followed
+    /// by a term that cannot be decoded; then a valid message that refers to those entries
+    HeaderThenBadTerm(u16),
 }
+
+const TINY: &[&[u8]] = &[&[131], &[112], &[131, 68], &[131, 69], &[131, 70], &[112, 131], &[131, 80], &[68], &[131, 68, 1], &[131, 69, 0], &[112, 131, 104], &[0], &[131, 131], &[70]];
 
 #[derive(Clone, Debug, Serialize, Deserialize, PartialEq)]
 pub enum Item {
@@ -206,6 +213,31 @@ fn build(c: &Case) -> Built {
                         f.extend_from_slice(&[1, 2, 3]);
                         f
                     }
+                    Junk::Tiny(k) => TINY[*k as usize % TINY.len()].to_vec(),
+                    Junk::HeaderThenBadTerm(seed) if c.header_mode && !c.read_half => {
+                        let names = [format!("hb{}", seed % 5), format!("hx{}", seed % 3)];
+                        let control = Value::Tuple(vec![Value::int(2), Value::atom(""), Value::Pid { node: "rust@127.0.0.1".into(), id: 7, serial: 0, creation: 1 }]);
+                        let payload = Value::Tuple(vec![Value::atom(&names[0]), Value::atom(&names[1]), Value::int(7)]);
+                        let slots = |seed: u16| {
+                            let mut k = seed;
+                            move |a: &str| {
+                                k = k.wrapping_mul(31).wrapping_add(a.len() as u16 + 7);
+                                Some(k % 2048)
+                            }
+                        };
+                        let (mut bad, _) = sender_encode(&control, Some(&payload), &mut cache, &mut slots(*seed), &mut Canonical);
+                        // the payload ends `97 7`: make its last element an unassigned tag
+                        let n = bad.len();
+                        bad[n - 2] = 0;
+                        stream.extend_from_slice(&frame4(&bad));
+                        // the peer does not know the frame was refused: it now refers to the entries it has just sent
+                        let (good, refs) = sender_encode(&control, Some(&payload), &mut cache, &mut slots(*seed), &mut Canonical);
+                        debug_assert!(refs.iter().all(|r| !r.new));
+                        expected.push((control, Some(payload), false));
+                        split_forms += 1;
+                        good
+                    }
+                    Junk::HeaderThenBadTerm(k) => TINY[*k as usize % TINY.len()].to_vec(),
                     Junk::NotAControlTuple => pass_through(&Value::atom("hello"), None),
                     Junk::EmptyTupleControl => pass_through(&Value::Tuple(vec![]), Some(&Value::int(1))),
                 };
@@ -423,6 +455,8 @@ fn strategy() -> impl Strategy<Value = Case> {
         1 => any::<u8>().prop_map(|frag_id| Junk::FragContUnknown { frag_id }),
         1 => Just(Junk::NotAControlTuple),
         1 => Just(Junk::EmptyTupleControl),
+        2 => any::<u8>().prop_map(Junk::Tiny),
+        2 => any::<u16>().prop_map(Junk::HeaderThenBadTerm),
     ];
     let item = prop_oneof![
         8 => (0u8..CONTROL_TABLE.len() as u8, prop::collection::vec(term(), 6), big, form).prop_map(|(row, fields, payload, form)| Item::Msg { row, fields, payload, form }),
